@@ -90,6 +90,16 @@ func (fr *Frame) call(in ssa.Instruction, cc *ssa.CallCommon, res ssa.Value) {
 			fr.x.guardsSeen[g.Name] = true
 			fr.oblige("guard", name, fr.evalBool(g.Expr, env), g.Src)
 		}
+		// ghost: remember that a function of this name has been called (spec: called(name))
+		if name != "" {
+			fr.cur.sorts["$called:"+name] = "Bool"
+			fr.cur.m["$called:"+name] = "true"
+			if fr.x.discover {
+				for _, l := range fr.x.curLoops {
+					fr.x.loopMods[l]["$called:"+name] = true
+				}
+			}
+		}
 	}
 	var args []*SVal
 	var fn *ssa.Function
